@@ -24,8 +24,19 @@ def run_one(d):
         env = dict(os.environ)
         env['CVA_EVIDENCE_DIR'] = os.path.join(tmp, 'evidence')
         env['CVA_NO_SELFTEST'] = '1'
+        pdbargs = ['--repo', scratch]
+        if ALL:
+            props = ALL_PROPS
+            pdbfile = os.path.join(tmp, 'pdb.json')
+            d_ = subprocess.run([os.path.join(VERIF, 'cva_dump.sh'), scratch, pdbfile], capture_output=True, text=True, env=env)
+            if not os.path.exists(pdbfile):
+                return {'seeded': os.path.basename(d), 'status': 'does-not-build', 'detail': d_.stderr[-300:]}
+            pdbargs = ['--repo', scratch, '--pdb', pdbfile]
+            res['by'] = []
         for prop in props:
-            c = subprocess.run([os.path.join(VERIF, 'check'), prop, '--repo', scratch], capture_output=True, text=True, env=env)
+            c = subprocess.run([os.path.join(VERIF, 'check'), prop] + pdbargs, capture_output=True, text=True, env=env)
+            if ALL and c.returncode == 1 and 'VIOLATION' in c.stdout:
+                res['by'].append(prop)
             if c.returncode == 1 and 'VIOLATION' in c.stdout:
                 res['status'] = 'caught'
                 res['rules'] += [l.strip().split(' key=')[0].replace('rule=', '') + ' ' + l.strip().split(' key=')[1].split(' site=')[0]
@@ -37,8 +48,17 @@ def run_one(d):
         shutil.rmtree(tmp, ignore_errors=True)
 
 
+ALL = False
+ALL_PROPS = sorted(f[:-3].upper() for f in os.listdir(os.path.join(VERIF, 'cva', 'props')) if f.startswith('c') and f[1:3].isdigit() and f.endswith('.py'))
+
+
 def main():
-    want = set(sys.argv[1:])
+    global ALL
+    args = sys.argv[1:]
+    if '--all' in args:       # run every property's check against each change (which checks catch which changes)
+        ALL = True
+        args.remove('--all')
+    want = set(args)
     dirs = sorted(d for d in glob.glob(os.path.join(VERIF, 'seeded', '*')) if os.path.exists(os.path.join(d, 'meta.json')))
     sel = []
     for d in dirs:
@@ -50,7 +70,7 @@ def main():
     with ThreadPoolExecutor(max_workers=int(os.environ.get('CVA_JOBS', '6'))) as ex:
         results = list(ex.map(run_one, sel))
     for r in results:
-        print('%-10s %s %s' % (r['status'], r['seeded'], r.get('rules', r.get('detail', ''))))
+        print('%-10s %s %s %s' % (r['status'], r['seeded'], r.get('by', ''), r.get('rules', r.get('detail', ''))))
     print(json.dumps(results))
     return 0
 
